@@ -28,6 +28,14 @@ CHECKS = {
              "Complete for the finite grammar enumerated (thorough: full cross product).",
         note="trusts rustc's improper_ctypes lint, the type checker, and the driver's fact printing; traits outside the corpus grammar are not covered",
         ref="4 C03"),
+    "C08": dict(
+        cat="other",
+        technique="per-function MIR rules (set of `?`-validated slots, dominance of the success site, aggregate field origins) over all 2^n-1 subsets x 5 operations of every generated group, plus rustc layout_of equality With_S == group",
+        text="`succeeds iff every requested trait was enabled` splits into `slot is Some iff enabled` (fillers: enable_*, Default, fill_table per implementing type) and "
+             "`operation succeeds iff all requested slots are Some` (exactly the requested slots validated, success dominated by all validations, nothing else decides); "
+             "both are exact structural facts, enumerated exhaustively over the powerset for groups with 0..2 (quick) / 0..4 (thorough) optional traits.",
+        note="trusts `?` semantics on Option and rustc layouts; the mapping from macro syntax `cast!(x impl A + B)` to `cast_impl_a_b` is by the documented naming",
+        ref="4 C08"),
     "C09": dict(
         cat="other",
         technique="rustc trait solver (Send/Sync/Opaquable + OpaqueTarget normalisation) over a complete wrapper x handle x context x payload matrix",
